@@ -1,6 +1,6 @@
 (* C20 -- ill-posed networks are diagnosed, identically for every algorithm: property theorems only. *)
 From mathcomp Require Import all_ssreflect all_algebra.
-From Gama Require Import LsqSpec.
+From Gama Require Import LsqSpec SvdIndex.
 Import GRing.Theory Num.Theory.
 Local Open Scope ring_scope.
 
@@ -39,3 +39,12 @@ rewrite /h -scalemxAr mulmxBr Ag sub0r -scalemxAr -Ck scalerN scaleNr opprK scal
 by [].
 Qed.
 Print Assumptions C20_null_vector_entry_means_dependent_column.
+
+(* Recorded finding (KNOWN_FINDINGS: C20:svd-lindep-flags-singular-value-index): reading "singular value i vanishes" as
+   "unknown i is dependent" is refuted by a 2 x 2 decomposition A = U W V' (V orthogonal): W's second entry vanishes, yet
+   the dependent unknown is the first (A e1 = 0) and the second is determined (A e2 <> 0). *)
+Theorem C20_vanishing_singular_value_index_is_the_dependent_unknown_refuted (F : realFieldType) :
+  [/\ Aex F = 1%:M *m Wex F *m (Vex F)^T, (Vex F)^T *m Vex F = 1%:M, Wex F 1 1 = 0,
+      Aex F *m delta_mx 0 0 = (0 : 'cV_2) & Aex F *m delta_mx 1 0 != (0 : 'cV_2)].
+Proof. exact: svd_index_is_not_the_unknown. Qed.
+Print Assumptions C20_vanishing_singular_value_index_is_the_dependent_unknown_refuted.
